@@ -93,6 +93,67 @@ def run(tier, out, model_ok, proof):
         random.Random(k).shuffle(order)
         r, cr = treecorr.run_isolated(os.path.join(BUILD, "harness"), ["ser"], order, shards=6 + 3 * k)
         fresh.append(r)
+    # (2b) state left behind by EARLIER builds of OTHER projects in the same process and at the
+    # same path: groups of projects are built one after the other in one directory; every result
+    # must equal the one the project gets when it is the only build of a fresh process
+    C07 = importlib.import_module("checks.C07")
+    inc_projects = [
+        {"root.jst": b"JSIGHT 0.3\nINCLUDE users.jst\n", "users.jst": b"\n\nINCLUDE common.jst\n", "common.jst": b"INCLUDE pet.jst\n", "pet.jst": b"TYPE @pet\n{\"a\": @undefined}\n"},
+        {"root.jst": b"JSIGHT 0.3\n\n\nINCLUDE orders.jst\n", "orders.jst": b"INCLUDE common.jst\n", "common.jst": b"\nINCLUDE pet.jst\n", "pet.jst": b"TYPE @pet\n{\"a\": @undefined}\n"},
+        {"root.jst": b"JSIGHT 0.3\nINCLUDE a.jst\n", "a.jst": b"Body any\n"},
+        {"root.jst": b"JSIGHT 0.3\n\nTYPE @x any\nINCLUDE a.jst\n", "a.jst": b"\nBody any\n"},
+    ]
+    for i in range(240 if big else 60):
+        roots = treecorr.gen_structured(rng, with_macros=False)
+        roots.insert(rng.randint(1, len(roots)), N(rng.choice(C07.FAULTS)))
+        inc_projects.append(C09.split_project(rng, roots))
+    pcases = [treecorr.project_case("q%d" % i, f) for i, f in enumerate(inc_projects)]
+    plines, solo_lines = [], []
+    for g0 in range(0, len(pcases), 6):
+        grp = pcases[g0:g0 + 6]
+        plines.append(json.dumps({"id": "grp%d" % g0, "mode": "prior", "group": grp}))
+        if len(grp) > 1:
+            plines.append(json.dumps({"id": "rev%d" % g0, "mode": "prior", "group": list(reversed(grp))}))
+    for c in pcases:
+        solo_lines.append(json.dumps({"id": "solo_" + c["id"], "mode": "prior", "group": [c]}))
+    pres, _ = treecorr.run_isolated(os.path.join(BUILD, "harness"), ["ser"], plines, shards=8)
+    # one process per project: shards = number of lines
+    sres = {}
+    def solo_run(line):
+        r, _ = treecorr.run_isolated(os.path.join(BUILD, "harness"), ["ser"], [line], shards=1)
+        sres.update(r)
+    import threading
+    sem = threading.Semaphore(12)
+    def guarded(line):
+        with sem:
+            solo_run(line)
+    ths = [threading.Thread(target=guarded, args=(l,)) for l in solo_lines]
+    for t in ths:
+        t.start()
+    for t in ths:
+        t.join()
+    prior_ok = 0
+    for gid, r in pres.items():
+        if r.get("end") != "ok":
+            continue
+        g0 = int(gid[3:])
+        grp = pcases[g0:g0 + 6]
+        if gid.startswith("rev"):
+            grp = list(reversed(grp))
+        for k, (c, b) in enumerate(zip(grp, r["builds"])):
+            s = sres.get("solo_" + c["id"])
+            if not s or s.get("end") != "ok":
+                continue
+            if json.dumps(b, sort_keys=True) != json.dumps(s["builds"][0], sort_keys=True):
+                show = {n: bytes.fromhex(h).decode("latin1")[:1200] for n, h in c["files"].items()}
+                show["built_before_in_the_same_process"] = [{n: bytes.fromhex(h).decode("latin1")[:400] for n, h in p["files"].items()} for p in grp[:k]][-2:]
+                a, bb = s["builds"][0], b
+                out.violations.append({"what": "the result of a build depends on the builds made before it in the same process: alone %s, after %d other projects %s" %
+                                       ((a.get("full") or a.get("sha") or "")[:150], k, (bb.get("full") or bb.get("sha") or "")[:150]),
+                                       "class": "depends-on-prior-builds", "input": show})
+                break
+        else:
+            prior_ok += 1
     ok = accepted = rejected = 0
     for c in cases:
         cid = c["id"]
@@ -136,9 +197,10 @@ def run(tier, out, model_ok, proof):
     out.coverage.update({
         "evaluations": len(cases) * (nrep * (1 + nproc)),
         "distinct_nontrivial": ok,
-        "rule": "projects = documents with two or more independent faults of one phase and with many ENUM/TYPE entries (the only way an iteration order can show) + generated documents with random type graphs + structured documents with macros and include trees + valid documents with one or two injected faults + corpus files (accepted and rejected); each project is built %d times inside one process and %d more times in each of %d fresh processes (Go randomises every map iteration and every process has its own hash seed and address layout); compared: sha256 of ToJson and of ToOpenAPIJson bytes (or their error text), or message, file, index, line, column, quote, include trace and the full Error() text; the same projects are compared with the extracted Coq model, which is a function; non-trivial = all observations identical" % (nrep, nrep, nproc),
+        "rule": "projects = documents with two or more independent faults of one phase and with many ENUM/TYPE entries (the only way an iteration order can show) + generated documents with random type graphs + structured documents with macros and include trees + valid documents with one or two injected faults + corpus files (accepted and rejected); each project is built %d times inside one process and %d more times in each of %d fresh processes (Go randomises every map iteration and every process has its own hash seed and address layout); compared: sha256 of ToJson and of ToOpenAPIJson bytes (or their error text), or message, file, index, line, column, quote, include trace and the full Error() text; prior builds: include-tree projects with an injected fault are built in groups, one after the other in one process and at one path (and in the reverse order), and every result must equal the project's result as the only build of a fresh process; the same projects are compared with the extracted Coq model, which is a function; non-trivial = all observations identical" % (nrep, nrep, nproc),
         "samples": [bytes.fromhex(cases[0]["files"]["root.jst"]).decode("latin1")[:200]],
         "accepted_projects": accepted, "rejected_projects": rejected,
+        "prior_build_groups_equal_to_fresh_process": prior_ok, "prior_build_projects": len(pcases),
         "traces_validated_against_impl": (len(cases) - len(mism) - skipped) if model_ok else 0,
         "correspondence_mismatches": len(mism),
         "exhaustive": False,
